@@ -100,12 +100,18 @@ class CFG:
     if isinstance(s, ast.Break):
       n = self._new('break', s)
       self._connect(preds, n)
-      loop[1].append((n, None))
+      if loop is None:      # CFG of a detached loop body: ends the iteration
+        self._edge(n, self.exit, 'break')
+      else:
+        loop[1].append((n, None))
       return []
     if isinstance(s, ast.Continue):
       n = self._new('continue', s)
       self._connect(preds, n)
-      self._edge(n, loop[0])
+      if loop is None:
+        self._edge(n, self.exit, 'continue')
+      else:
+        self._edge(n, loop[0])
       return []
     if isinstance(s, (ast.With, ast.AsyncWith)):
       n = self._new('with', s)
